@@ -58,8 +58,12 @@ run_phase() { # $1 = phase name, $2.. = extra go test flags
   local phase=$1; shift
   export VERIF_PHASE=$phase VERIF_RESULT=$OUT/result.$phase VERIF_PHASE_FILE=$OUT/phase.race.json
   export GORACE="halt_on_error=0 log_path=$OUT/race.$phase"
+  # compile only this property's cNN_test.go plus every helper file of the package, so that a
+  # broken monitor of another property cannot take this check down
+  local lid; lid=$(echo "$ID" | tr 'A-Z' 'a-z')
+  local files; files=$(cd "$H/$pkg" && ls *.go | grep -v -E '^c[0-9]+_test\.go$' | sed "s#^#./$pkg/#" | tr '\n' ' ')
   (cd "$H" && timeout -s QUIT $((timeout_s+60)) go test -modfile="$OUT/go.mod" -tags verif "${overlay[@]}" "$@" -count=1 -timeout ${timeout_s}s \
-      -run "^Test${ID}\$" ./$pkg/ ) >"$OUT/log.$phase" 2>&1
+      -run "^Test${ID}\$" $files ./$pkg/${lid}_test.go ) >"$OUT/log.$phase" 2>&1
   local rc=$?
   echo $rc > "$OUT/rc.$phase"
 }
